@@ -7,7 +7,7 @@ ID=$1; T=/tmp/wt-$ID; R=/tmp/seed-$ID; S=$T/aldor/aldor/src; OUT=$R/confirm.txt;
 run_demo() { # $1 = mdir ; prints a digest of demo behaviour
   local m=$1 d; d=$(mktemp -d)
   if [ -f $m/demo.c ]; then ( cd $d && gcc -w -I$S -o demo $m/demo.c $S/libgen.a $S/libport.a -lm 2>&1 | tail -2; ./demo 2>&1 | md5sum ); fi
-  for sh in $m/demo*.sh; do [ -f "$sh" ] && ( bash "$sh" > $d/o.txt 2>&1; echo "$(basename $sh) exit=$?" ); done
+  for sh in $m/demo*.sh; do [ -f "$sh" ] && ( bash "$sh" > $d/o.txt 2>&1; rc=$?; echo "$(basename $sh) exit=$rc" ); done
   rm -rf $d
 }
 cd $T || exit 2
